@@ -205,10 +205,36 @@ def r6(rep, prog):
                   "(lenient) — `title:*`, the exists query of the documented grammar, gives UnsupportedQuery(\"Range query need to target a specific field.\")" % (name, name.lower()), site=site(b, tg))
 
 
+def r7(rep, prog):
+    """the slop and the prefix flag of a quoted phrase reach every phrase literal the parser builds"""
+    from ..model import provenance
+    R = "C16-R7"
+    rep.rule(R, "`\"a b\"~2` and `\"a b\"*` mean the same on every kind of field: compute_logical_ast_for_leaf receives the slop and the prefix flag of the quoted phrase; every LogicalLiteral::Phrase it (or a helper it calls) builds takes its `slop` and `prefix` from parameters, never from a constant. Sibling agreement: generate_literals_for_str forwards both; a helper that hard-codes `slop: 0, prefix: false` silently drops what the user wrote for that kind of field")
+    LL = "tantivy::query::query_parser::logical_ast::LogicalLiteral"
+    n = 0
+    for fid, b in sorted(prog.bodies.items()):
+        if "tantivy::query::query_parser::query_parser::" not in fid or "::tests::" in fid or b.kind in ("const", "static", "promoted"):
+            continue
+        for bi in b.normal_blocks():
+            for st in b.stmts(bi):
+                if st.get("r") == "agg" and st.get("adt") == LL and st.get("variant") == "Phrase" and "fields" in st:
+                    n += 1
+                    for fld, o in zip(st["fields"], st.get("o", [])):
+                        if fld not in ("slop", "prefix"):
+                            continue
+                        l = op_local(o)
+                        from_param = l is not None and any(x[0] == "param" for x in provenance(b, l))
+                        rep.check(from_param, R, "%s: Phrase.%s comes from a parameter" % (short(fid), fld), "forwarded",
+                                  "`%s` builds a LogicalLiteral::Phrase whose `%s` is the constant %s: the ~slop / * suffix of a quoted phrase is silently ignored on this kind of field — "
+                                  "`js.t:\"big wolf\"~1` matches [9] where `title:\"big wolf\"~1` matches [8, 9]" % (fid, fld, o.get("v") if isinstance(o, dict) else "?"), site=site(b, bi))
+    rep.floor(R, "Phrase literals built by the query parser", n, 2)
+
+
 def run(rep, prog, tier):
     r4(rep, prog)
     r5(rep, prog)
     r6(rep, prog)
+    r7(rep, prog)
     rep.rule("C16-R1", "panic inventory: every panicking construct (explicit panic/assert/unreachable, unwrap/expect, indexing/slicing and panicking std APIs, arithmetic overflow/division asserts) in bodies of the parser's source files reachable from parse_query / parse_query_lenient / QueryParser entry points equals the frozen, individually reasoned table (keyed by function + kind + count, no line numbers)")
     rep.rule("C16-R2", "recursion: every cycle (SCC) of the parser scope's call graph needs a recorded depth bound; cycles driven by input nesting without a bound are findings")
     rep.not_decided += ["that the parsed query means what the grammar says", "strict / lenient agreement (semantic)", "panics inside tokenizers, Term builders, date/ip parsing called from the parser (outside the scope, trusted)"]
